@@ -59,6 +59,37 @@ class ExprWorld:
         num = q * d if r.random() < 0.5 else q * d + r.choice([1, -1])
         return ["div", ["i", num], ["i", d]]
 
+    def exists_eq2(self):
+        """Exists a, b. conjunction containing TWO equalities on bound variables (a == t1, b == t2 or b == a) in random
+        positions among other conjuncts that mention a and b"""
+        r, g = self.rng, self.g
+        ta, tb = r.choice(g.types)[0], r.choice(g.types)[0]
+        va, vb = [f"za_{ta}", ["user", ta]], [f"zb_{tb}", ["user", tb]]
+        sc = {"params": self.params, "vars": self.vars + [va, vb]}
+        ea, eb = ["v", va[0], va[1]], ["v", vb[0], vb[1]]
+
+        def rhs(t, allow_var=None):
+            c = []
+            for tt, _ in g.types:
+                if tt in g.subtypes(t) or t in g.subtypes(tt):
+                    x = g.obj_term(tt, {"params": self.params, "vars": self.vars}, allow_fluent=False)
+                    if x is not None:
+                        c.append(x)
+            if allow_var is not None:
+                c.append(allow_var)
+            return r.choice(c) if c else None
+
+        ra = rhs(ta)
+        rb = rhs(tb, allow_var=ea if (ta in g.subtypes(tb) or tb in g.subtypes(ta)) else None)
+        if ra is None or rb is None:
+            return self.exists_eq()
+        eqa = ["eq", ea, ra] if r.random() < 0.5 else ["eq", ra, ea]
+        eqb = ["eq", eb, rb] if r.random() < 0.5 else ["eq", rb, eb]
+        others = [g.boolean(1, sc) for _ in range(r.choice([1, 2, 2]))]
+        conj = [eqa, eqb] + others
+        r.shuffle(conj)
+        return ["exists", [va, vb], ["and"] + conj]
+
     def exists_eq(self):
         """Exists v. (v == t) and phi(v), incl. t mentioning v through an object fluent and t of a supertype / subtype"""
         r, g = self.rng, self.g
